@@ -86,6 +86,22 @@ func (ex *Exec) ropeCut(v Value, sep string, site ssa.Instruction) (Value, Value
 			if digitOnlyTerm(x) && !strings.ContainsAny(sep, "0123456789-") {
 				continue
 			}
+			if as, ok := fixedAtoms(x); ok && len(sep) == 1 {
+				// a fixed-length character sequence: decide position by position (cheap byte comparisons)
+				cutAt := -1
+				for k, a := range as {
+					if ex.branch(atomEq(a, sep[0]), site) {
+						cutAt = k
+						break
+					}
+				}
+				if cutAt < 0 {
+					continue
+				}
+				before := mkRope(append(append([]interface{}{}, parts[:i]...), atomsToTerm(as[:cutAt])))
+				after := mkRope(append([]interface{}{atomsToTerm(as[cutAt+1:])}, parts[i+1:]...))
+				return before, after, true
+			}
 			if ex.branch(tStrContains(x, mkStr(sep)), site) {
 				j := tStrIndexOf(x, mkStr(sep), mkInt(0))
 				b := tStrSubstr(x, mkInt(0), j)
